@@ -59,6 +59,11 @@ fn main() {
         let to: usize = opt("--to").and_then(|s| s.parse().ok()).unwrap_or(usize::MAX);
         std::process::exit(checks::c06::worker(tier, from, to));
     }
+    if cmd == "c14-worker" {
+        let from: usize = opt("--from").and_then(|s| s.parse().ok()).unwrap_or(0);
+        let to: usize = opt("--to").and_then(|s| s.parse().ok()).unwrap_or(usize::MAX);
+        std::process::exit(checks::c14::worker(tier, from, to));
+    }
     if cmd == "c04-emit" {
         let out = opt("--out").unwrap_or_else(|| usage());
         let upto: usize = opt("--upto").and_then(|s| s.parse().ok()).unwrap_or(usize::MAX);
